@@ -467,6 +467,11 @@ class Interp:
             return ops.power(a, b)
         if op is ast.MatMult:
             raise Unsupported("@ on non-tensors")
+        if op in (ast.LShift, ast.RShift, ast.BitXor, ast.BitAnd, ast.BitOr) and \
+                isinstance(a, int) and isinstance(b, int):
+            import operator as _op
+            return {ast.LShift: _op.lshift, ast.RShift: _op.rshift, ast.BitXor: _op.xor,
+                    ast.BitAnd: _op.and_, ast.BitOr: _op.or_}[op](a, b)
         raise Unsupported(f"binary operator {op.__name__}")
 
     def unwrap_opt(self, v):
